@@ -102,6 +102,22 @@ func genMapFamilies(g genCfg, c ContainerKind, level int, full bool) []*MapScen 
 			}
 		}
 	}
+	// F4b: the insert appends a new bucket to a full chain while others read / write / traverse that chain
+	for _, ins := range insertOps {
+		for _, b := range append(append([]MIn{}, allOps...), opRange) {
+			if level == 0 && ins.Op != MStore && ins.Op != MLoadOrCompute && b.Op != MLoad {
+				continue
+			}
+			if b.Op == MRange && g.classes&(OLin|ORange) == OLin {
+				continue // traversals are C07's
+			}
+			add(&MapScen{Rel: RelSD, NKeys: 2, Init: []int{0, 1}, Table: TFullChain, Threads: [][]MIn{{on(ins, 0)}, {on(b, 1)}}})
+			if b.Op != MRange && b.Op != MClear {
+				add(&MapScen{Rel: RelSD, NKeys: 2, Init: []int{0, 0}, Table: TFullChain, Threads: [][]MIn{{on(ins, 0)}, {on(b, 0)}}})
+				add(&MapScen{Rel: RelSS, NKeys: 2, Init: []int{0, 0}, Table: TFullChain, Threads: [][]MIn{{on(ins, 0)}, {on(b, 1)}}})
+			}
+		}
+	}
 	// F5: grow in flight. T0 inserts absent k0 into a full chain above the load factor.
 	// T1 works on k1 which is (a) present in the same chain, (b) in another bucket, present or absent.
 	for _, ins := range insertOps {
